@@ -43,16 +43,25 @@ NAMINGS = {"pts": {}, "geometry": {"pts": "geometry"}, "falsy": {"lines": ""}}
 KEEP = []                   # collections read earlier from the same files, kept referenced on purpose
 
 
+LAYOUT = ["std"]            # "std": val, pts, lines, polys;  "geomfirst": pts (a non-active geometry column) first, then a string column
+
+
+def base_cols():
+    return ["val", "pts", "lines", "polys"] if LAYOUT[0] == "std" else ["pts", "txt", "val", "lines", "polys"]
+
+
 def base_frame(active):
     import pandas as pd
     from spatialpandas import GeoDataFrame
     from spatialpandas.geometry import LineArray, PointArray, PolygonArray
-    df = GeoDataFrame({
+    data = {
         "val": np.arange(5) * 10,
-        rn("pts"): PointArray([list(p) for p in PTS]),
-        rn("lines"): LineArray([[c for p in l for c in p] for l in LINES]),
-        rn("polys"): PolygonArray([[r] for r in POLYS]),
-    }, index=pd.Index([100, 101, 102, 103, 104], name="idx"), geometry=rn(active))
+        "txt": [f"t{i}" for i in range(5)],
+        "pts": PointArray([list(p) for p in PTS]),
+        "lines": LineArray([[c for p in l for c in p] for l in LINES]),
+        "polys": PolygonArray([[r] for r in POLYS]),
+    }
+    df = GeoDataFrame({rn(c): data[c] for c in base_cols()}, index=pd.Index([100, 101, 102, 103, 104], name="idx"), geometry=rn(active))
     return df
 
 
@@ -90,7 +99,7 @@ def ops_for(obj, m, depth):
     g = m.geoms()
     if m.kind == "pd":
         n = len(m.rows)
-        ops += [("iloc_slice", 1, None), ("copy",), ("pickle",), ("concat",), ("head", 3), ("cx", "A"), ("cx", "B"), ("ctor",)]
+        ops += [("iloc_slice", 1, None), ("copy",), ("pickle",), ("concat",), ("head", 3), ("cx", "A"), ("cx", "B"), ("ctor",), ("concat_empty",), ("astype_same",)]
         if "val" in m.cols:
             ops += [("filter", 20), ("sort",), ("loc_mask",)]
         if n >= 3:
@@ -150,6 +159,10 @@ def apply_model(m, op):
         return M("pd", m.cols, m.active, m.rows)
     if t == "concat":
         return M("pd", m.cols, m.active, m.rows + m.rows)
+    if t == "concat_empty":
+        return M("pd", m.cols, m.active, [])
+    if t == "astype_same":
+        return M("pd", m.cols, m.active, m.rows)
     if t == "head":
         return M("pd", m.cols, m.active, m.rows[:op[1]])
     if t == "cx":
@@ -210,6 +223,11 @@ def apply_real(obj, m, op, scratch):
         return GeoDataFrame(obj)
     if t == "concat":
         return pd.concat([obj, obj])
+    if t == "concat_empty":
+        return pd.concat([obj.iloc[:0], obj.iloc[:0]])          # every query came back empty
+    if t == "astype_same":
+        # the column-wise astype pandas / Dask use for string conversion: non-geometry columns only
+        return obj.astype({c: obj[c].dtype for c in obj.columns if c in ("val", "txt")}) if any(c in ("val", "txt") for c in obj.columns) else obj.copy()
     if t == "head":
         return obj.head(op[1])
     if t == "cx":
@@ -463,14 +481,15 @@ def check_dask_state(col, obj, m, hist, case):
     col.outcome(f"dd:{m.active}:np={obj.npartitions}")
 
 
-def explore(col, active, depth, shard, nshards, scratch, pts_name="pts"):
+def explore(col, active, depth, shard, nshards, scratch, pts_name="pts", layout="std"):
     PTS_NAME[0] = pts_name
+    LAYOUT[0] = layout
 
     def build_root():
-        return base_frame(active), M("pd", ["val", "pts", "lines", "polys"], active, [0, 1, 2, 3, 4])
+        return base_frame(active), M("pd", base_cols(), active, [0, 1, 2, 3, 4])
 
     def case_for(hist):
-        return {"active": active, "pts_name": pts_name, "history": [list(o) for o in hist]}
+        return {"active": active, "pts_name": pts_name, "layout": layout, "history": [list(o) for o in hist]}
 
     def key(obj, m):
         return m.key()
@@ -617,9 +636,11 @@ def run(ctx):
     nshards = 16 if ctx.thorough else 8
     if ctx.thorough:
         depth = 4
-    units = [(a, s, pn) for a in ("lines", "polys") for s in range(nshards) for pn in ("pts", "geometry", "falsy")]
+    units = [(a, s, pn, "std") for a in ("lines", "polys") for s in range(nshards) for pn in ("pts", "geometry", "falsy")]
+    units += [(a, s, "pts", "geomfirst") for a in ("lines", "polys") for s in range(nshards)]
     # verify the hand-written selection tables against the library once (harness self-check)
     PTS_NAME[0] = "pts"
+    LAYOUT[0] = "std"
     df = base_frame("lines")
     for c in GEOM_COLS:
         for b in BOXES:
@@ -631,8 +652,8 @@ def run(ctx):
         if i == len(units):
             label_probes(col)
             return
-        a, s, pn = units[i]
-        explore(col, a, depth, s, nshards, scratch, pn)
+        a, s, pn, lay = units[i]
+        explore(col, a, depth, s, nshards, scratch, pn, lay)
 
     core.pmap(ctx, work, len(units) + 1)
     c = ctx.col.counters
@@ -654,7 +675,8 @@ def replay(ctx, case):
     scratch = ctx.scratch()
     active = case["active"]
     PTS_NAME[0] = case.get("pts_name", "pts")
-    cur, cm = base_frame(active), M("pd", ["val", "pts", "lines", "polys"], active, [0, 1, 2, 3, 4])
+    LAYOUT[0] = case.get("layout", "std")
+    cur, cm = base_frame(active), M("pd", base_cols(), active, [0, 1, 2, 3, 4])
     hist = []
     for o in case["history"]:
         o = tuple(tuple(x) if isinstance(x, list) else x for x in o)
